@@ -129,6 +129,17 @@ Section Sem.
   Definition start (sto : buf -> C) : state := {| env := fun _ => []; store := sto; next := 0%N |}.
 End Sem.
 
+(* ------------------------------------------------------------------ the explicit out= target *)
+(* objects are attribute dictionaries in a heap; SparseArray._make_shallow_copy_of(self, other) is
+   `self.__dict__ = other.__dict__.copy()`: object self gets other's attribute bindings (the same
+   buffers, not copies); no other object and no buffer changes. *)
+Section Out.
+  Variable D : Type.                      (* attribute dictionaries *)
+  Definition oheap := nat -> D.
+  Definition shallow_copy_of (h : oheap) (self other : nat) : oheap :=
+    fun i => if Nat.eqb i self then h other else h i.
+End Out.
+
 Arguments env {C} s.
 Arguments store {C} s.
 Arguments next {C} s.
